@@ -115,6 +115,16 @@ func genC04(t *rapid.T, tier string) (*World, any) {
 		seen[word] = true
 		p.Words = append(p.Words, C04Word{Line: word})
 	}
+	if chance(t, 4, "bigblock") {
+		// a long command list (CRS has blocks of several hundred commands)
+		for i := 0; len(p.Words) < 300; i++ {
+			word := fmt.Sprintf("%s%d%s", pick(t, []string{"cmd", "x-y", "a.b", "run"}, "bigw"), i, pick(t, []string{"", "", "@", "~"}, "bigm"))
+			if !seen[word] {
+				seen[word] = true
+				p.Words = append(p.Words, C04Word{Line: word})
+			}
+		}
+	}
 	if chance(t, 30, "others") {
 		p.Others = append(p.Others, "zz"+drawWord(t, 1, 3, "other"))
 	}
@@ -526,7 +536,7 @@ func evalC04(sc *Scenario, sim *Sim) ([]Violation, bool, string) {
 func init() {
 	register(&Property{
 		ID: "C04", Level: "exploration",
-		Rule: "scenario = cmdline unix|windows block with 1-6 command words over letters, digits, `.`, `-`, `_`, blank with optional @ / ~ / \\@ / \\~ and verbatim (') lines, alone, next to plain entries, nested in an assemble block, or concatenated between `##!=>` markers inside an assemble block x configuration state of regex-assembly/toolchain.yaml: complete, partial (random keys missing), padded with white space, empty, torn after two thirds (syntactically broken), well-formed with a value of the wrong type (the decoder fails after filling the other fields), another file selected with -f, absent, open failing with EACCES / ELOOP (I/O seam), a directory in its place (read fails) x pattern triple drawn from a pool whose members come with positive sample strings x a schedule. Oracles: two reference languages built from the statement (lower = characters with the effective evasion pattern between them, `.` / `-` literal, blank = white space+, demanded suffix; upper additionally tolerates one evasion token before the suffix): every positive sample (word itself; 7 variants with evasion samples interleaved and the suffix sample appended) must match the generated regex, every negative sample (`.`/`-` replaced, blank removed, demanded suffix dropped, truncated, doubled) outside upper must not; every failed configuration must give output byte-identical to the explicit empty configuration. Non-trivial = every scenario; distinct = distinct (world, configuration mode).",
+		Rule: "scenario = cmdline unix|windows block with 1-6 command words over letters, digits, `.`, `-`, `_`, blank with optional @ / ~ / \\@ / \\~ and verbatim (') lines, alone, next to plain entries, nested in an assemble block, or concatenated between `##!=>` markers inside an assemble block x configuration state of regex-assembly/toolchain.yaml: complete, partial (random keys missing), padded with white space, empty, torn after two thirds (syntactically broken), well-formed with a value of the wrong type (the decoder fails after filling the other fields), another file selected with -f, absent, open failing with EACCES / ELOOP (I/O seam), a directory in its place (read fails) x pattern triple drawn from a pool whose members come with positive sample strings x a schedule; in a quarter of the scenarios the expression is what `update` stores in the rules file (same -f) instead of what generate prints. Oracles: two reference languages built from the statement (lower = characters with the effective evasion pattern between them, `.` / `-` literal, blank = white space+, demanded suffix; upper additionally tolerates one evasion token before the suffix): every positive sample (word itself; 7 variants with evasion samples interleaved and the suffix sample appended) must match the generated regex, every negative sample (`.`/`-` replaced, blank removed, demanded suffix dropped, truncated, doubled) outside upper must not; every failed configuration must give output byte-identical to the explicit empty configuration. Non-trivial = every scenario; distinct = distinct (world, configuration mode).",
 		Gen:  genC04, Eval: evalC04,
 		QuickChecks: 2500, ThoroughChecks: 40000, Timeout: 20 * time.Second,
 		Assumptions: []string{
